@@ -469,11 +469,16 @@ class _KInARow(Constraint):
         level = self.level
         factor = level.factor
         level_list = sample[factor]
+        sustain_count = block.sustain_count(factor)
 
         def check_sequence(start: int, end: int) -> bool:
             counts = []
             count = 0
             for i in range(start, end):
+                if not factor.applies_to_trial(i // sustain_count + 1):
+                    # No level here (e.g., skipped by a stride): as in the encoding,
+                    # a run is over consecutive trials where the factor has a level
+                    continue
                 l = level_list[i]
                 if count > 0 and l != level:
                     counts.append(count)
